@@ -71,9 +71,6 @@ Proof.
 Qed.
 
 (* ------------------------------------------------------------------ a pass, the loop, a run *)
-Definition pass_rt (p:passres2) : rt := match p with PassDone2 _ r _ | PassExit2 _ r _ => r end.
-Definition pass_log (p:passres2) : list visit := match p with PassDone2 _ _ l | PassExit2 _ _ l => l end.
-Definition pass_result (p:passres2) : rresult := match p with PassDone2 x _ _ | PassExit2 x _ _ => x end.
 
 (* the machine after a run that was cut by the time limit *)
 Definition cut_by_limit (x:rresult) (r:rt) : Prop :=
